@@ -1,13 +1,21 @@
-(* C14 driver.  Input line (TAB-separated):
-     F <root> <main> <disk spec> <fuel> <vfs> <resolve table>
-       vfs:      space-separated  <path>:<content>            ("-" when empty)
-       resolve:  space-separated  <source>:<argument>:<path>  ("-" when empty); an argument that
-                 is not in the table resolves to the plain join (never happens for generated cases)
-   Output: <parse_file result> TAB <inlined text: N | S<str>> TAB <spec checks>
+(* C14 driver.  Input lines (TAB-separated):
+     F <root> <main> <disk spec> <fuel>
+         parse_file fs (resolve canon) fuel main, where fs / canon are the emulation below of the
+         directory tree <disk spec> created under <root> with <root> as the current directory
+     K <root> <unused> <disk spec> <paths: list>
+         unit-level check of that emulation against the OS: for every path  <canon>;<parse_file at fuel 1>
+     U <source> <argument>
+         unit-level check of the lexical path model against std::path:
+         <Path::parent(source)> TAB <parent(source) pushed with argument, or argument> TAB <source pushed with argument>
+   disk spec: space-separated  d<path> | f<path>:<content> | l<path>:<target>   (paths relative to root; "-" when empty)
+   Output F: <parse_file result> TAB <inlined text: N | S<str>> TAB <spec checks>
      parse result:  OK <instr>...  |  ERR <kind> <line> <source>
      instr:         <line>;<source>;<type>     source: N | S<str>
      type:          E | P;<cmd>;<args> | S;<label>;<output>;<cmd>;<args>     args: N | A<str>,<str>...
-     spec checks:   <parse_file = parse_x (inline_x)> <erase parse_file = erase (parse_text inlined)>   (T|F|-) *)
+     spec checks:   <parse_file = parse_x (inline_x)> <erase parse_file = erase (parse_text inlined)>   (T|F|-)
+   The path computation itself (Path::parent, PathBuf::push, the canonicalize-or-plain-join choice)
+   is the EXTRACTED IncludePath.resolve; only canonicalize and the file contents come from the
+   emulation (Section variables [canon] and [fs] of the Coq development). *)
 let opt_s = function None -> "N" | Some s -> "S" ^ field_of_str s
 let args_s = function None -> "N" | Some l -> "A" ^ String.concat "," (List.map field_of_str l)
 let type_s = function
@@ -30,25 +38,115 @@ let instr_s i = string_of_int (int_of_n i.i_line) ^ ";" ^ opt_s i.i_source ^ ";"
 let tres_s = function
   | TOk is -> String.concat " " ("OK" :: List.map instr_s is)
   | TErr (e, l, s) -> Printf.sprintf "ERR %s %d %s" (kind_s e) (int_of_n l) (opt_s s)
-let entries f = if f = "-" then [] else List.map (String.split_on_char ':') (String.split_on_char ' ' f)
+
+(* ---- emulation of the OS on the case's directory tree: std::fs::canonicalize (realpath: every
+   component must exist, symbolic links are followed, a non-directory cannot be followed by anything,
+   not even by a trailing "/" or "/.") and fsio::file::read_text_file.  Paths are code-point lists. *)
+type node = Dir | File of char list | Link of int list      (* File: contents as a model string *)
+let ints_of_field s = if s = "e" then [] else List.map int_of_string (String.split_on_char '.' s)
+let ints_of_str (l : char list) = List.map int_of_n l
+let str_of_ints l : char list = List.map n_of_int l
+let split_slash (l : int list) : int list list =
+  let rec go cur acc = function
+    | [] -> List.rev (List.rev cur :: acc)
+    | 47 :: r -> go [] (List.rev cur :: acc) r
+    | c :: r -> go (c :: cur) acc r in
+  go [] [] l
+let norm cs = List.filter (fun c -> c <> [] && c <> [46]) cs
+let rec is_prefix a b = match a, b with
+  | [], _ -> true | x :: a', y :: b' -> x = y && is_prefix a' b' | _ -> false
+let rec drop n l = if n = 0 then l else match l with [] -> [] | _ :: t -> drop (n - 1) t
+
+let build_tree disk =
+  let tree : (int list list, node) Hashtbl.t = Hashtbl.create 32 in
+  let add_dirs cs =
+    let rec go pre = function
+      | [] -> ()
+      | c :: r -> let p = pre @ [c] in
+                  if not (Hashtbl.mem tree p) then Hashtbl.replace tree p Dir; go p r in
+    go [] cs in
+  let parent_of cs = List.rev (List.tl (List.rev cs)) in
+  if disk <> "-" then
+    List.iter (fun e ->
+      let tag = e.[0] and rest = String.sub e 1 (String.length e - 1) in
+      match tag, String.split_on_char ':' rest with
+      | 'd', [p] -> add_dirs (norm (split_slash (ints_of_field p)))
+      | 'f', [p; c] -> let cs = norm (split_slash (ints_of_field p)) in
+                       add_dirs (parent_of cs); Hashtbl.replace tree cs (File (str_of_field c))
+      | 'l', [p; t] -> let cs = norm (split_slash (ints_of_field p)) in
+                       add_dirs (parent_of cs); Hashtbl.replace tree cs (Link (ints_of_field t))
+      | _ -> failwith "disk") (String.split_on_char ' ' disk);
+  tree
+
+let kind tree rootc cur =
+  if is_prefix cur rootc then Some Dir
+  else if is_prefix rootc cur then Hashtbl.find_opt tree (drop (List.length rootc) cur)
+  else None
+
+let canon_comps tree rootc (p : int list) : int list list option =
+  if p = [] then None else
+  let raw = split_slash p in
+  let last_raw = List.nth raw (List.length raw - 1) in
+  let must_dir = (last_raw = [] || last_raw = [46]) in
+  let rec go cur todo hops =
+    match todo with
+    | [] -> Some (List.rev cur)
+    | [46; 46] :: rest -> go (match cur with [] -> [] | _ :: t -> t) rest hops
+    | c :: rest ->
+      let cur' = c :: cur in
+      (match kind tree rootc (List.rev cur') with
+       | None -> None
+       | Some (Link tgt) ->
+         if hops >= 20 then None
+         else go (if tgt <> [] && List.hd tgt = 47 then [] else cur) (norm (split_slash tgt) @ rest) (hops + 1)
+       | Some (File _) -> if rest <> [] then None else go cur' rest hops
+       | Some Dir -> go cur' rest hops) in
+  match go (if List.hd p = 47 then [] else List.rev rootc) (norm raw) 0 with
+  | None -> None
+  | Some cs -> (match kind tree rootc cs with
+                | Some (File _) when must_dir -> None
+                | Some _ -> Some cs
+                | None -> None)
+
+let path_of_comps cs : int list =
+  if cs = [] then [47] else List.concat_map (fun c -> 47 :: c) cs
+
+let os_of root disk =
+  let tree = build_tree disk in
+  let rootc = norm (split_slash (ints_of_field root)) in
+  let canon (p : char list) : char list option =
+    match canon_comps tree rootc (ints_of_str p) with
+    | Some cs -> Some (str_of_ints (path_of_comps cs))
+    | None -> None in
+  let fs (p : char list) : char list option =
+    match canon_comps tree rootc (ints_of_str p) with
+    | Some cs -> (match kind tree rootc cs with Some (File c) -> Some c | _ -> None)
+    | None -> None in
+  (fs, canon)
+
+let popt_s = function PSome p -> "S" ^ field_of_str p | PNone -> "N" | PFuel -> "FUEL"
+
 let () = iter_lines (fun line ->
   match fields line with
-  | ["F"; _root; main; _disk; fuel; vfs; res] -> (try
-      let tbl = Hashtbl.create 16 and rtbl = Hashtbl.create 16 in
-      List.iter (function [p; c] -> Hashtbl.replace tbl (str_of_field p) (str_of_field c) | _ -> failwith "vfs") (entries vfs);
-      List.iter (function [s; a; r] -> Hashtbl.replace rtbl (str_of_field s, str_of_field a) (str_of_field r) | _ -> failwith "res") (entries res);
-      let fs p = Hashtbl.find_opt tbl p in
-      let resolve src a = match src with
-        | None -> a
-        | Some s -> (match Hashtbl.find_opt rtbl (s, a) with Some r -> r | None -> failwith "resolve: not in table") in
+  | "F" :: root :: main :: disk :: fuel :: _ -> (try
+      let (fs, canon) = os_of root disk in
+      let res = resolve canon in
       let fuel = nat_of_int (int_of_string fuel) in
       let main = str_of_field main in
-      let r = parse_file fs resolve fuel main in
-      let flat = parse_x (inline_x fs resolve fuel main) in
-      let (inl, chk2) = match inline_t fs resolve fuel main with
+      let r = parse_file fs res fuel main in
+      let flat = parse_x (inline_x fs res fuel main) in
+      let (inl, chk2) = match inline_t fs res fuel main with
         | None -> ("N", "-")
         | Some tl -> let text = unlines (List.map pasted tl) in
                      ("S" ^ field_of_str text, b2s (erase r = erase (parse_text text))) in
       Printf.printf "%s\t%s\t%s %s\n" (tres_s r) inl (b2s (r = flat)) chk2
     with Failure m -> print_endline ("MODEL-ERROR " ^ m))
+  | ["K"; root; _; disk; paths] -> (try
+      let (fs, canon) = os_of root disk in
+      let one p = opt_s (canon p) ^ ";" ^ tres_s (parse_file fs (resolve canon) (nat_of_int 1) p) in
+      print_endline (String.concat "|" (List.map one (list_of_field paths)))
+    with Failure m -> print_endline ("MODEL-ERROR " ^ m))
+  | ["U"; src; arg] ->
+      let s = str_of_field src and a = str_of_field arg in
+      Printf.printf "%s\t%s\t%s\n" (popt_s (parent s)) (field_of_str (lex_join s a)) (field_of_str (push s a))
   | _ -> print_endline "BADLINE")
